@@ -800,6 +800,23 @@ func (s *Sim) opDumpLoad(op *Op) {
 			return
 		}
 	}
+	// dump.reset (wave 13, C17-l): a world that loaded a dump and is then Reset is an empty, reusable world again:
+	// its creations are the creations of a fresh world, and the two reserved handles stay dead.
+	if op.X%2 == 0 {
+		w2.Reset()
+		fresh := ecs.NewWorld(abs(op.N)%3 + 1)
+		for i := 0; i < 3; i++ {
+			h, want := w2.NewEntity(), fresh.NewEntity()
+			if h != want {
+				s.violate("C17", "dump.reset", "handle", false, "creation %d after Reset of the world that loaded a dump returned %v, a fresh world returns %v", i, h, want)
+				return
+			}
+		}
+		if n := w2.Stats().Entities.Used; n != 3 {
+			s.violate("C17", "dump.reset", "used", false, "the world that loaded a dump, was Reset and created 3 entities reports %d used entities", n)
+			return
+		}
+	}
 	s.tracef("%d DumpLoad", s.OpIdx)
 }
 
